@@ -42,6 +42,41 @@ def features(text: str) -> Set[str]:
             else:
                 self.generic_visit(n)
     V().visit(tree)
+    # a lambda parameter bound to a sequence that is the root of two or more sequence operations
+    for lam in [n for n in ast.walk(tree) if isinstance(n, ast.Lambda)]:
+        for a in lam.args.args:
+            uses = 0
+            for n in ast.walk(lam.body):
+                if isinstance(n, ast.Call) and isinstance(n.func, ast.Attribute) and n.func.attr in SEQ_OPS and _recv_root(n) == a.arg and \
+                        isinstance(n.func.value, ast.Name):
+                    uses += 1
+            if uses >= 2:
+                feats.add("seq-variable-reused")
+    # a projection that ignores its element (Select(lambda x: <no x>)) feeding an aggregate / First / another projection
+    for n in ast.walk(tree):
+        if isinstance(n, ast.Call) and isinstance(n.func, ast.Attribute) and n.func.attr == "Select" and n.args and isinstance(n.args[0], ast.Lambda):
+            lam = n.args[0]
+            p = lam.args.args[0].arg
+            if not any(isinstance(x, ast.Name) and x.id == p for x in ast.walk(lam.body)):
+                if not (isinstance(n.func.value, ast.Name) and n.func.value.id == "ds"):
+                    feats.add("selector-ignores-element")
+    # rows per object whose column is itself a sequence
+    top = tree
+    if isinstance(top, ast.Call) and isinstance(top.func, ast.Attribute) and top.func.attr == "Select" and top.args and isinstance(top.args[0], ast.Lambda):
+        src = top.func.value
+        body = top.args[0].body
+        roots_sm = False
+        cur = src
+        while isinstance(cur, ast.Call) and isinstance(cur.func, ast.Attribute):
+            if cur.func.attr == "SelectMany":
+                roots_sm = True
+            cur = cur.func.value
+        def is_seq(b):
+            return (isinstance(b, ast.Call) and ((isinstance(b.func, ast.Attribute) and b.func.attr in ("Select", "Where", "SelectMany")) or
+                                                 (isinstance(b.func, ast.Name) and b.func.id == "Range")))
+        elems = body.elts if isinstance(body, (ast.Tuple, ast.List)) else [body]
+        if roots_sm and any(is_seq(b) for b in elems):
+            feats.add("per-object-seq-column")
     if "Range(" in text:
         feats.add("range")
     if ".Max()" in text or ".Min()" in text:
